@@ -373,6 +373,22 @@ Definition api_session (cmd : bytes) (args : list cbor) : option cbor :=
       end
     | _ => None
     end
+  (* a session far into its life: the receive counter stands at `ctr`, a message under the right key whose IV carries
+     counter `crafted` arrives.  args: role of the SENDER (0 reader, 1 device), ctr, crafted [, accepted?] *)
+  else if bytes_eqb cmd (s "c06.far") then
+    match args with
+    | [CUInt r; CUInt ctr; CUInt crafted] =>
+      Some (CBool (bytes_eqb (snd (next_iv (role_of_code r) ctr)) (iv (role_of_code r) crafted)))
+    | _ => None
+    end
+  else if bytes_eqb cmd (s "c06.spec_far") then
+    match args with
+    | [CUInt r; CUInt ctr; CUInt crafted; CBool accepted] =>
+      Some (if Bool.eqb accepted (crafted =? ctr + 1) then ctext "ok"
+            else if accepted then ctext "fail:a message that is not the next in sequence (its counter is not the receive counter + 1) was accepted"
+            else ctext "fail:the next message in sequence was refused")
+    | _ => None
+    end
   else if bytes_eqb cmd (s "c07.spec_emissions") then
     match args with
     | CArray ems :: _ =>
